@@ -406,3 +406,10 @@ def x12(cx: Cx, ob: Ob) -> None:
     from ..rules import package_lints
 
     package_lints(cx, ob, {'api.py', 'reconciliation.py'})
+
+
+@obligation("C12-X13", "records are copied and serialised whole: no model_dump(exclude_unset=True) / model_fields_set anywhere in the package (in-place merges do not update pydantic's fields_set)", floor=1)
+def x13(cx: Cx, ob: Ob) -> None:
+    from ..rules import no_fields_set_dependence
+
+    no_fields_set_dependence(cx, ob)
